@@ -372,6 +372,35 @@ def api(rng, case, idx):
                 if (0 < len(good) < len(outs)) or differ:
                     M.violate(['C14'], 'PARSE', 'C14:equivalent_concentration_lists_make_different_solutions',
                               {'calls': [(l_, repr(o)[:120]) for l_, o in outs]})
+        # ---- a *liquid* solute denser than the solvent, at a target between the two densities (in g/mL): the same ratio in
+        #      moles or in grams per volume is one request, however it is written
+        acid = pp.Substance.liquid('H2SO4', 98.079, 1.8302)
+        lightest = min(liquids(subs), key=lambda l_: l_.density)
+        if lightest.density * 1.25 < acid.density:
+            for trial in range(3):
+                stock_l = C('acid stock', initial_contents=[(acid, f'{rng.randint(30, 60)} mL'), (lightest, f'{rng.randint(2, 6)} mL')])
+                cur_gmL = R.concentration(stock_l.contents, acid, 'g', 'L') / 1000.0
+                lo_, hi_ = lightest.density * 1.02, min(acid.density, cur_gmL) * 0.97
+                if hi_ <= lo_:
+                    continue
+                tg = rng.uniform(lo_, hi_)          # g/mL
+                cross = [f'{tg * 1000 / acid.mol_weight!r} M', f'{tg * 1000 / acid.mol_weight!r} mol/L', f'{tg * 1000!r} g/L', f'{tg!r} g/mL',
+                         f'{tg * 1000!r} mg/mL', f'{tg * 10!r} g/10 mL']
+                if R.cfg().wv_units == 'g/mL':
+                    cross.append(f'{tg * 100!r} %w/v')
+                outs = []
+                for s_ in cross:
+                    try:
+                        outs.append((s_, {k.name: v for k, v in stock_l.dilute(acid, s_, lightest).contents.items()}))
+                    except Exception as e:   # noqa
+                        outs.append((s_, e))
+                M.count('PARSE.api_equivalence')
+                M.bucket('C14/api/cross_numerator/dilute_dense_liquid_solute')
+                good_ = [o for l_, o in outs if not isinstance(o, Exception)]
+                differ = any(abs(g.get(k, 0.0) - good_[0][k]) > 1e-6 * abs(good_[0][k]) + 1e-6 for g in good_[1:] for k in good_[0])
+                if (0 < len(good_) < len(outs)) or differ or not good_:
+                    M.violate(['C14'], 'PARSE', 'C14:same_ratio_in_moles_or_grams_differs:dilute_dense_liquid_solute',
+                              {'calls': [(l_, repr(o)[:160]) for l_, o in outs], 'solute_density': acid.density, 'solvent_density': lightest.density})
         # ---- a concentration *unit* means what SI says where a concentration is reported: 'm' is moles per kilogram of
         #      the whole content (every substance has a mass, enzymes too), percent is parts per hundred, 'M' per litre
         from pv.gen import declared_enzyme
